@@ -228,10 +228,11 @@ def _slice_bounds(lo, hi, n):
 
 @unit(P, "Binning.__getitem__", fuc=["yaw.binning:Binning.__getitem__", "yaw.binning:Binning.left", "yaw.binning:Binning.right",
                                     "yaw.binning:Binning.__init__", "yaw.binning:parse_binning"],
-      cases=[dict(kind="int"), dict(kind="slice")])
-def u_binning_getitem(ctx, kind):
-    """binning[i] is bin i (also for negative i); binning[lo:hi] the contiguous sub-binning; out of range raises"""
-    binning, nb = CC.make_binning(ctx)
+      cases=[dict(kind=k, closed=c) for k in ("int", "slice") for c in ("left", "right")])
+def u_binning_getitem(ctx, kind, closed):
+    """binning[i] is bin i (also for negative i); binning[lo:hi] the contiguous sub-binning with the same closed side; out of
+    range raises"""
+    binning, nb = CC.make_binning(ctx, closed)
     mono(ctx, binning, nb)
     name = "C17/Binning.__getitem__"
     ctx.canary()
@@ -270,7 +271,7 @@ def u_binning_getitem(ctx, kind):
 
 def _slice_unit(ctx, which, kind, cont):
     """_make_bin_slice/_make_patch_slice of PatchedCounts (cont='pc') or PatchedSumWeights (cont='sw')"""
-    binning, nb = CC.make_binning(ctx)
+    binning, nb = CC.make_binning(ctx, "left")   # not the default closed side: a lost argument shows
     mono(ctx, binning, nb)
     N = ctx.fresh_int("num_patches", lo=1, size=True)
     x = CC.make_patched_counts(ctx, binning, nb, N, False) if cont == "pc" else CC.make_sum_weights(ctx, binning, nb, N, False)
@@ -306,7 +307,8 @@ def _slice_unit(ctx, which, kind, cont):
             ctx.check(f"{name}/post:shape", And(arr.shape[0] == ln, arr.shape[1] == N, arr.shape[2] == N))
             ctx.assume(z3.And(b.t < ln.t, i2.t < N.t, j2.t < N.t), "post:arbitrary cell")
             ctx.check(f"{name}/post:cells", arr.elem(b.t, i2.t, j2.t) == x.counts.elem((lo + b).t, i2.t, j2.t))
-            ctx.check(f"{name}/post:binning_sliced_alike", And(vc_len(res.binning) == ln, res.binning.edges.at(0) == binning.edges.at(lo)))
+            ctx.check(f"{name}/post:binning_sliced_alike", And(vc_len(res.binning) == ln, res.binning.edges.at(0) == binning.edges.at(lo),
+                                                               str(res.binning.closed) == str(binning.closed)))
         else:
             ctx.check(f"{name}/post:shape", And(arr.shape[0] == nb, arr.shape[1] == ln, arr.shape[2] == ln))
             ctx.assume(z3.And(b.t < nb.t, i2.t < ln.t, j2.t < ln.t), "post:arbitrary cell")
@@ -341,7 +343,7 @@ def u_slices(ctx, which, kind, cont):
       cases=[dict(kind="int"), dict(kind="slice")])
 def u_sd_slice(ctx, kind):
     CD = mod("yaw.correlation.corrdata")
-    binning, nb = CC.make_binning(ctx)
+    binning, nb = CC.make_binning(ctx, "left")   # not the default closed side: a lost argument shows
     mono(ctx, binning, nb)
     S = ctx.fresh_int("num_samples", lo=1, size=True)
     x = CC.make_sampled(ctx, binning, nb, S)
@@ -414,7 +416,7 @@ def u_indexer(ctx):
                             "yaw.correlation.corrdata:SampledData._make_bin_slice"])
 def u_commute(ctx):
     """x.bins[lo:hi].sample_patch_sum() == x.sample_patch_sum().bins[lo:hi]  (value and every jackknife row)"""
-    binning, nb = CC.make_binning(ctx)
+    binning, nb = CC.make_binning(ctx, "left")   # not the default closed side: a lost argument shows
     mono(ctx, binning, nb)
     N = ctx.fresh_int("num_patches", lo=1, size=True)
     x = CC.make_patched_counts(ctx, binning, nb, N, False)
